@@ -7,6 +7,7 @@ import (
 	"sort"
 	"strings"
 	"sync"
+	"sync/atomic"
 	"testing"
 
 	"github.com/xelaj/mtproto/internal/encoding/tl"
@@ -368,11 +369,27 @@ func TestC01(t *testing.T) {
 				t.Fatalf("INFRA: builder: %v", err)
 			}
 			c.Draws = rec.Draws
+			// every other type whose mandatory fields are all scalars, strings or vectors is met as its zero value: all
+			// conditional fields absent, so a goroutine that wrongly takes one for mandatory writes bytes the others do not
+			if idx/nsh%2 == 0 {
+				plain := true
+				for i := 0; i < pt.Elem().NumField(); i++ {
+					f := pt.Elem().Field(i)
+					if _, cond := f.Tag.Lookup("tl"); !cond && (f.Type.Kind() == reflect.Ptr || f.Type.Kind() == reflect.Interface) {
+						plain = false
+					}
+				}
+				if plain {
+					v = reflect.New(pt.Elem())
+					c.Draws = nil
+					run.Class("first-use-concurrent:zero-value", 1)
+				}
+			}
 			n++
 			run.Case(true, evid.Hash("first-use", name, fmt.Sprint(c.Draws)), "first-use-concurrent")
 			const workers = 12
 			var ready, wg sync.WaitGroup
-			start := make(chan struct{})
+			var start atomic.Bool
 			outs := make([][]byte, workers)
 			errs := make([]error, workers)
 			for w := 0; w < workers; w++ {
@@ -381,7 +398,8 @@ func TestC01(t *testing.T) {
 				go func(w int) {
 					defer wg.Done()
 					ready.Done()
-					<-start
+					for !start.Load() { // spinning: all twelve leave within a fraction of a microsecond
+					}
 					errs[w] = hx.Safely(func() error {
 						b, err := tl.Marshal(v.Interface())
 						outs[w] = b
@@ -393,7 +411,7 @@ func TestC01(t *testing.T) {
 				}(w)
 			}
 			ready.Wait()
-			close(start)
+			start.Store(true)
 			wg.Wait()
 			later, lerr := tl.Marshal(v.Interface())
 			for w := 0; w < workers; w++ {
